@@ -41,6 +41,10 @@ def gen_cases(ctx):
     for _ in range(6):
         n = rng.randrange(1, 5)
         cases.append({"op": "export", "mode": "file", "n": n, "gates": rand_circuit(rng, n, rng.randrange(0, 12), us)})
+    # the file clause does not depend on there being a gate: circuits without gates, and with a single gate
+    for n in (1, 3):
+        cases.append({"op": "export", "mode": "file", "n": n, "gates": []})
+        cases.append({"op": "export", "mode": "file", "n": n, "gates": [{"g": "op", "kind": "H", "params": [], "ts": [0], "cs": []}]})
     # unsupported operator: refused, nothing emitted
     cases.append({"op": "export", "mode": "text", "n": 3, "gates": [{"g": "op", "kind": "H", "params": [], "ts": [0], "cs": []},
                  {"g": "op", "kind": "Match", "params": [float2bits(0.3), float2bits(0.2), float2bits(0.1)], "ts": [0], "cs": []}]})
